@@ -23,7 +23,7 @@ import numpy as np
 from . import common
 
 
-def build_model(rng, torch, transformer):
+def build_model(rng, torch, transformer, max_seq_len=64):
     dim = rng.choice([16, 32])
     heads = rng.choice([1, 2, 4])
     layers = rng.choice([1, 2, 3])
@@ -40,7 +40,7 @@ def build_model(rng, torch, transformer):
     torch.manual_seed(rng.randrange(2 ** 31))
     enc = transformer.LineSelfAttentionEncoder(dropout=0.0, max_seq_len=200, dim_model=dim, dim_ff=2 * dim, nb_heads=heads, nb_layers=1)
     net = transformer.TransformerOCR(Frontend(), enc, num_classes=nclass, dropout=0.0, nb_layers=layers, dim_model=dim, dim_ff=2 * dim,
-                                     max_seq_len=64, nb_heads=heads)
+                                     max_seq_len=max_seq_len, nb_heads=heads)
     # random weights with some spread so that arg-max decisions are not all ties
     with torch.no_grad():
         for p in net.parameters():
@@ -192,6 +192,32 @@ def run(ctx):
                                       '(up to its first boundary / the length cap, ignore symbols skipped)',
                                       dict(model=cfg, width=int(xs.shape[3]), image_seeded=True), lab_s[0].tolist(), exp_line)
                         break
+                # (i) the engine's run_ocr (what process_lines calls): batches of DECREASING width through one engine object = each batch
+                # through a fresh engine (run_ocr centres narrow batches on a 1088 px canvas)
+                try:
+                    if it % 3 != 0:
+                        raise StopIteration
+                    # a model of its own: the 1088 px canvas gives 136 encoder frames and a length cap of 272 symbols, so the caches must be
+                    # longer than the usual 64, and a bias towards the boundary symbol lets the lines finish soon
+                    rnet, rcfg = build_model(rng, torch, transformer, max_seq_len=300)
+                    rnet.dec_out_proj.bias[rcfg['classes'] - 2] += 4.0
+                    reng = make_engine(copy.deepcopy(rnet), rcfg['classes'])
+                    ws = sorted([rng.choice([32, 48, 64, 96, 128]) for _ in range(3)], reverse=True)
+                    nb = rng.choice([1, 2])
+                    for w in ws:
+                        xb = np.random.RandomState(rng.randrange(2 ** 31)).randint(0, 256, size=(nb, 16, w, 3)).astype(np.uint8)
+                        dec_a, lg_a = reng.run_ocr(xb.copy())
+                        dec_b, lg_b = make_engine(copy.deepcopy(rnet), rcfg['classes']).run_ocr(xb.copy())
+                        ctx.evaluations += 1
+                        if list(dec_a) != list(dec_b) or np.asarray(lg_a).shape != np.asarray(lg_b).shape or np.abs(np.asarray(lg_a) - np.asarray(lg_b)).max(initial=0) > 1e-4:
+                            ctx.violation('history-dependent:run_ocr', "a batch recognised by an engine that has recognised wider batches before differs from the same batch on a fresh engine",
+                                          dict(model=rcfg, widths=ws, batch=nb, at_width=w), list(dec_a), list(dec_b))
+                            break
+                    ctx.count('run_ocr_sequences')
+                except StopIteration:
+                    pass
+                except AttributeError as e:
+                    ctx.count('run_ocr_standin_unusable')
                 # (e) NaN poisoning of every slot the model calls invalid: read-set within valid-set
                 pnet = copy.deepcopy(fresh_net)
                 peng = make_engine(pnet, cfg['classes'])
